@@ -29,6 +29,7 @@ func collect(repo string, f *facts) {
 	diskFacts(f)
 	reloadFacts(f)
 	stopFacts(f)
+	orderFacts(f)
 }
 
 // ---- C16: Must… / panic sites in constructors ----
@@ -1356,4 +1357,69 @@ func stopFacts(f *facts) {
 		}
 		f.prs["metric_pending_sites"] = append(f.prs["metric_pending_sites"], [2]string{m, v})
 	}
+}
+
+// ---- C05: order ----
+func orderFacts(f *facts) {
+	f.note["order_scan_sorted"] = "chunkOperator.ScanExistingChunks: the whole directory is read in one call (Readdirnames(0)) and sorted once before the list is built"
+	var sc []string
+	if fd := fn("buffer/hybridbuffer/chunkoperator.go", "ScanExistingChunks", "chunkOperator"); fd != nil {
+		loops := 0
+		inspect(fd.Body, func(n ast.Node) bool {
+			switch x := n.(type) {
+			case *ast.CallExpr:
+				switch src(x.Fun) {
+				case "op.maybeDir.Readdirnames":
+					sc = append(sc, "Readdirnames("+src(x.Args[0])+")")
+				case "sort.Strings":
+					sc = append(sc, "sort.Strings("+src(x.Args[0])+")")
+				}
+			case *ast.ForStmt:
+				loops++
+			case *ast.RangeStmt:
+				sc = append(sc, "range "+src(x.X))
+			}
+			return true
+		})
+		if loops > 0 {
+			sc = append(sc, fmt.Sprintf("for-loops=%d", loops))
+		}
+	}
+	f.strs["order_scan_sorted"] = sc
+	f.note["order_session_stages"] = "clientSession.Run: the stages in order (leftovers are resent before any new input is taken)"
+	var st []string
+	if fd := fn("output/baseoutput/clientsession.go", "Run", "clientSession"); fd != nil {
+		inspect(fd.Body, func(n ast.Node) bool {
+			if c, ok := n.(*ast.CallExpr); ok {
+				switch src(c.Fun) {
+				case "session.runAcknowledger", "session.resendLeftovers", "session.processInput":
+					st = append(st, src(c.Fun))
+				}
+			}
+			return true
+		})
+	}
+	f.strs["order_session_stages"] = st
+	f.note["order_input_sources"] = "functions of clientsession.go that receive from session.inputChannel / from the leftovers channel"
+	var srcs []string
+	if file := parse("output/baseoutput/clientsession.go"); file != nil {
+		for _, d := range file.Decls {
+			fd, ok := d.(*ast.FuncDecl)
+			if !ok || fd.Body == nil {
+				continue
+			}
+			inspect(fd.Body, func(n ast.Node) bool {
+				if u, ok := n.(*ast.UnaryExpr); ok && u.Op == token.ARROW {
+					switch src(u.X) {
+					case "session.inputChannel":
+						srcs = append(srcs, fd.Name.Name+":input")
+					case "leftovers":
+						srcs = append(srcs, fd.Name.Name+":leftovers")
+					}
+				}
+				return true
+			})
+		}
+	}
+	f.strs["order_input_sources"] = srcs
 }
